@@ -1328,7 +1328,7 @@ pub fn run(session: &Session) -> i32 {
         session.run_enum(&C18, fs_cases);
     }
     if !session.stopped() {
-        session.run_tapes(&C18, session.tier.of(60_000, 3_000_000), 40, 0);
+        session.run_tapes(&C18, session.tier.of(200_000, 3_000_000), 40, 0);
     }
     // stdout / stdin are process-wide: these run one at a time
     for case in serial {
